@@ -33,6 +33,7 @@ func init() {
 			{Name: "instances", Run: runInstances, Solo: true},
 			{Name: "identical", Run: runIdentical, Solo: true},
 			{Name: "isolation", Run: runIsolation, Solo: true},
+			{Name: "copyshape", Run: runCopyShape, Solo: true},
 		},
 		Assumptions: []string{
 			"ref/shape is a faithful transcription of ES5.1 section 15 (trusted table)",
@@ -62,6 +63,7 @@ func build(cfg string) *otto.Otto {
 const prelude = `
 (function(global){
   var gopd = Object.getOwnPropertyDescriptor, ots = Object.prototype.toString;
+  var hop = Object.prototype.hasOwnProperty, pie = Object.prototype.propertyIsEnumerable;
   global.__row = function(owner, name) {
     var d = gopd(owner, name);
     if (!d) return "absent";
@@ -69,6 +71,13 @@ const prelude = `
     var a = (acc ? "A" : (d.writable ? "1" : "0")) + (d.enumerable ? "1" : "0") + (d.configurable ? "1" : "0");
     var v = acc ? undefined : d.value;
     var s = typeof v + ":" + a;
+    // every own-property observer must agree with the descriptor
+    var names = Object.getOwnPropertyNames(owner), listed = false;
+    for (var i = 0; i < names.length; i++) if (names[i] === String(name)) listed = true;
+    var keys = Object.keys(owner), keyed = false;
+    for (var i = 0; i < keys.length; i++) if (keys[i] === String(name)) keyed = true;
+    var obs = [hop.call(owner, name), (name in owner), pie.call(owner, name) === !!d.enumerable, listed, keyed === !!d.enumerable];
+    for (var i = 0; i < obs.length; i++) if (obs[i] !== true) s += ":observer" + i + "-disagrees";
     if (typeof v === "function") {
       var ld = gopd(v, "length");
       s += ":len=" + v.length + ":" + (ld ? ((ld.writable ? "1" : "0") + (ld.enumerable ? "1" : "0") + (ld.configurable ? "1" : "0")) : "absent");
@@ -219,35 +228,62 @@ func runObjects(r *engine.Run) {
 // non-enumerable (so that for-in never shows a built-in).
 const walkSrc = `
 (function(global){
-  var seen = [], paths = [], out = [];
-  function visit(o, path) {
-    if (o === null || (typeof o !== "object" && typeof o !== "function")) return;
-    for (var i = 0; i < seen.length; i++) if (seen[i] === o) return;
-    seen.push(o); paths.push(path);
-  }
-  visit(global, "this");
-  for (var i = 0; i < seen.length; i++) {
-    var o = seen[i], path = paths[i];
-    var names = Object.getOwnPropertyNames(o);
-    for (var j = 0; j < names.length; j++) {
-      var n = names[j];
-      if (n.indexOf("__") === 0) continue;
-      var d = Object.getOwnPropertyDescriptor(o, n);
-      var acc = ("get" in d) || ("set" in d);
-      out.push(path + "\t" + n + "\t" + (acc ? "accessor" : typeof d.value) + "\t" + (acc ? "A" : (d.writable ? 1 : 0)) + (d.enumerable ? 1 : 0) + (d.configurable ? 1 : 0) + "\t" + (typeof d.value === "function" ? d.value.length : ""));
-      var child = path === "this" ? n : path + "." + n;
-      if (!acc) visit(d.value, child);
-      else { visit(d.get, child + "<get>"); visit(d.set, child + "<set>"); }
+  // Everything the walk needs is captured here, so that it still works after a script has
+  // deleted or replaced built-ins (no method calls on possibly edited prototypes).
+  var gopn = Object.getOwnPropertyNames, gopd = Object.getOwnPropertyDescriptor, gpo = Object.getPrototypeOf;
+  var isExt = Object.isExtensible, isSealed = Object.isSealed, isFrozen = Object.isFrozen;
+  return function() {
+    var seen = [], paths = [], nSeen = 0, out = "", first = true;
+    function emit(line) { out += (first ? "" : "\n") + line; first = false; }
+    function visit(o, path) {
+      if (o === null || (typeof o !== "object" && typeof o !== "function")) return;
+      for (var i = 0; i < nSeen; i++) if (seen[i] === o) return;
+      seen[nSeen] = o; paths[nSeen] = path; nSeen++;
     }
-    var p = Object.getPrototypeOf(o);
-    visit(p, path + ".[[Prototype]]");
-  }
-  return out.join("\n");
+    visit(global, "this");
+    for (var i = 0; i < nSeen; i++) {
+      var o = seen[i], path = paths[i];
+      var names = gopn(o);
+      for (var j = 0; j < names.length; j++) {
+        var n = names[j];
+        if (n[0] === "_" && n[1] === "_") continue;
+        var d = gopd(o, n);
+        var acc = ("get" in d) || ("set" in d);
+        emit(path + "\t" + n + "\t" + (acc ? "accessor" : typeof d.value) + "\t" + (acc ? "A" : (d.writable ? 1 : 0)) + (d.enumerable ? 1 : 0) + (d.configurable ? 1 : 0) + "\t" + (typeof d.value === "function" ? d.value.length : ""));
+        var child = path === "this" ? n : path + "." + n;
+        if (!acc) visit(d.value, child);
+        else { visit(d.get, child + "<get>"); visit(d.set, child + "<set>"); }
+      }
+      emit(path + "\t[[Extensible]]\t" + isExt(o) + "\t" + (isSealed(o) ? "sealed" : "") + (isFrozen(o) ? "frozen" : "") + "\t");
+      visit(gpo(o), path + ".[[Prototype]]");
+    }
+    return out;
+  };
 })(this)
 `
 
+// installWalk puts the walker closure into the runtime (global __walk, skipped by the walk itself).
+func installWalk(vm *otto.Otto) error {
+	res := ox.Run(vm, "this.__walk = "+walkSrc+"; 0")
+	if res.Panicked {
+		return fmt.Errorf("panic: %v", res.PanicVal)
+	}
+	return res.Err
+}
+
 func walk(vm *otto.Otto) ([]string, error) {
-	res := ox.Run(vm, walkSrc)
+	if v, err := vm.Get("__walk"); err != nil || !v.IsFunction() {
+		if err := installWalk(vm); err != nil {
+			return nil, err
+		}
+	}
+	res := ox.Guard(func() (otto.Value, error) {
+		f, err := vm.Get("__walk")
+		if err != nil {
+			return otto.Value{}, err
+		}
+		return f.Call(otto.UndefinedValue())
+	})
 	if res.Panicked {
 		return nil, fmt.Errorf("panic: %v", res.PanicVal)
 	}
@@ -278,6 +314,9 @@ func runReverse(r *engine.Run) {
 				continue
 			}
 			objs[f[0]] = true
+			if f[1] == "[[Extensible]]" {
+				continue
+			}
 			k := key(cfg, f[0], f[1])
 			if !r.MineKey(k) {
 				continue
@@ -550,6 +589,68 @@ func runIsolation(r *engine.Run) {
 				r.Sample(fmt.Sprintf("%d edits on every intrinsic of another runtime, then shape dump of %s", edits, name))
 			}
 			r.Check(k, fmt.Sprintf("runtime A applied %d deletes/adds/redefinitions to its intrinsics; shape dump of %s", edits, name), "", obs)
+		}
+	}
+}
+
+// copyshape: "every copy has the identical shape" also after a history on the source runtime:
+// whatever the template's intrinsics look like (hardened, edited, vandalised), Copy() and
+// Copy().Copy() must reproduce exactly that shape, extensibility flags included.
+func runCopyShape(r *engine.Run) {
+	histories := []struct{ name, src string }{
+		{"pristine", `0`},
+		{"hardened", `Object.freeze(Math); Object.seal(JSON); Object.preventExtensions(Array.prototype); Object.freeze(String.prototype); Object.seal(Object); Object.preventExtensions(Function.prototype); Object.preventExtensions(this); 0`},
+		{"hardened-functions", `Object.freeze(parseInt); Object.seal(Array.prototype.push); Object.preventExtensions(Error); Object.freeze(RegExp.prototype); Object.seal(Date.prototype); 0`},
+		{"edited", `delete Array.prototype.concat; Math.extra = 1; Object.defineProperty(String.prototype, "trim", {enumerable: true}); Object.defineProperty(JSON, "parse", {writable: false}); Number.prototype.toFixed = function(){ return "x" }; 0`},
+		{"vandal-1", strings.Replace(vandalSrc, "ROUNDS", "1", 1)},
+		{"vandal-2", strings.Replace(vandalSrc, "ROUNDS", "2", 1)},
+	}
+	for _, h := range histories {
+		t := otto.New()
+		if err := installWalk(t); err != nil {
+			r.HarnessError("installWalk: " + err.Error())
+			return
+		}
+		if res := ox.Run(t, h.src); res.Panicked || res.Err != nil {
+			r.Mismatch(engine.Mismatch{Key: "copyshape/" + h.name + "/history", Input: h.src, Expected: "runs", Observed: fmt.Sprint(res.Err, res.PanicVal)})
+			continue
+		}
+		want, err := walk(t)
+		if err != nil {
+			r.Mismatch(engine.Mismatch{Key: "copyshape/" + h.name + "/walk", Input: h.name, Expected: "walk completes", Observed: err.Error()})
+			continue
+		}
+		sort.Strings(want)
+		base := strings.Join(want, "\n")
+		c1 := t.Copy()
+		c2 := c1.Copy()
+		for _, sub := range []struct {
+			name string
+			vm   *otto.Otto
+		}{{"copy", c1}, {"copycopy", c2}, {"template-after-copy", t}} {
+			k := "copyshape/" + h.name + "/" + sub.name
+			if !r.MineKey(k) {
+				continue
+			}
+			obs := ""
+			lines, err := walk(sub.vm)
+			if err != nil {
+				obs = "walk failed: " + err.Error()
+			} else {
+				sort.Strings(lines)
+				if d := strings.Join(lines, "\n"); d != base {
+					obs = firstDiff(base, d)
+					if obs == "" {
+						obs = "dump differs (duplicate lines)"
+					}
+				}
+			}
+			r.Eval(true)
+			r.Outcome(h.name + sub.name + fmt.Sprint(obs == ""))
+			if r.WantSample() {
+				r.Sample("history " + h.name + ": shape dump of " + sub.name + " vs the template")
+			}
+			r.Check(k, "template history: "+h.name+"; shape dump (with [[Extensible]]/sealed/frozen per object) of "+sub.name, "", obs)
 		}
 	}
 }
